@@ -86,6 +86,7 @@ class DeflateDecompressor(SimpleGzipDecompressor):
         super().__init__()
         self.decompressobj = None
         self._header = b''
+        self._is_raw = False
 
     def decompress(self, value):
         if not self.decompressobj:
@@ -102,17 +103,26 @@ class DeflateDecompressor(SimpleGzipDecompressor):
                 self.decompressobj = zlib.decompressobj()
             else:
                 self.decompressobj = zlib.decompressobj(-zlib.MAX_WBITS)
+                self._is_raw = True
 
         return self.decompressobj.decompress(value)
 
     def flush(self):
         if not self.decompressobj and self._header:
             self.decompressobj = zlib.decompressobj(-zlib.MAX_WBITS)
+            self._is_raw = True
             self.decompressobj.decompress(self._header)
             self._header = b''
 
         if self.decompressobj:
-            return super().flush()
+            data = super().flush()
+
+            if self._is_raw and self.decompressobj.unused_data:
+                # Most likely a zlib stream with a damaged header that was
+                # taken for raw deflate: raw deflate has no checksum.
+                raise zlib.error('Data after the end of the deflate stream.')
+
+            return data
         else:
             return b''
 
